@@ -19,7 +19,7 @@ TRUSTED = [
 ASSUME = ['time bounds are measured on this machine under a per-run cap; "low-degree polynomial" is tested as t(2n)/t(n) below 4.5 (quadratic plus noise) on pumped families']
 
 LINE_RE = re.compile(r'\A[EWIP]: .+?: [a-z0-9-]+(?: .*)?\Z')
-TIME_CAP = 20.0     # seconds for any single generated file (largest is ~200 kB)
+TIME_CAP = 15.0     # seconds for any single generated file (largest is ~200 kB)
 
 
 def run_cli(args, cwd, timeout, seed=0):
@@ -94,6 +94,12 @@ def gen_files(ctx, d):
             if field == 'Content-Type':
                 cat['entries'].append({'msgid': 'tricky', 'msgstr': '.xn--a. +AGE- \\x80 =?x?= aGk= \x1b$B'})
             files.append((w(d, 'c%d.po' % i, pogen.render(cat)), 'component:' + field))
+            i += 1
+    for cs in ['idna', 'punycode', 'utf-7', 'utf-16', 'utf-32', 'hz', 'iso2022_jp', 'rot13', 'base64', 'hex', 'uu', 'quopri', 'zlib', 'bz2', 'unicode_escape',
+               'raw_unicode_escape', 'undefined', 'charmap', 'utf_8_sig', 'cp037', 'cp500', 'mbcs', 'oem', 'string-escape', 'unicode_internal']:
+        for body in ['.xn--a.', 'xn--', '+AGE-', '+-', '~{', '\\u12', '\\N{x}', 'x', '=?', '\x1b$B']:
+            text = 'msgid ""\nmsgstr ""\n"Content-Type: text/plain; charset=%s\\n"\n\nmsgid "a"\nmsgstr "%s"\n' % (cs, body)
+            files.append((w(d, 'cs%d.po' % i, text), 'component:charset-ascii-only'))
             i += 1
     for flag, vals in FORMAT_STRINGS.items():
         for v in vals:
@@ -253,7 +259,7 @@ def check(ctx):
             ctx.fail(kind, {'file_name': f, 'family': fam[f], 'options': opts, 'content': data[:3000].decode('utf-8', 'backslashreplace')}, what, finding)
             ctx.count('bad:' + kind)
     # ---- pumped families: time growth
-    sizes = [250, 500, 1000, 2000, 4000] if ctx.quick() else [250, 500, 1000, 2000, 4000, 8000, 16000]
+    sizes = [500, 2000, 8000] if ctx.quick() else [500, 2000, 8000, 32000]
     fams = pumped_families()
 
     def run_family(fm):
@@ -261,7 +267,7 @@ def check(ctx):
         times = []
         for n in sizes:
             fn = w(d, 'p_%s_%d.po' % (name, n), mk(n))
-            out, err, rc, dt = run_cli([fn], d, 60)
+            out, err, rc, dt = run_cli([fn], d, 25 if ctx.quick() else 120)
             times.append((n, dt, rc, err.decode('utf-8', 'replace')[-300:]))
             if rc != 0 or err:
                 break
@@ -280,9 +286,10 @@ def check(ctx):
         (n1, t1, _, _), (n2, t2, _, _) = times[-2], times[-1]
         a, b = max(t1 - base_t * 0.9, 0.02), max(t2 - base_t * 0.9, 0.02)
         ctx.stats['time:' + name] = [round(t, 2) for (_, t, _, _) in times]
-        if b > 1.0 and b / a > 4.5:
+        ratio_cap = 4.5 ** (1 if n2 == 2 * n1 else 2)      # sizes grow 4x per step: quadratic growth is 16x
+        if b > 1.0 and b / a > ratio_cap:
             ctx.fail('super-quadratic-time', {'family': name, 'times': [(n_, round(t, 2)) for (n_, t, _, _) in times]},
-                     'run time grows by %.1fx when the input doubles (%d -> %d)' % (b / a, n1, n2), finding)
+                     'run time grows by %.1fx when the input grows %dx (%d -> %d): more than quadratic' % (b / a, n2 // n1, n1, n2), finding)
     ctx.samples = [{'file': f, 'family': fm} for f, fm in files[::max(1, len(files) // 8)]][:8] + [{'pumped_family': n} for n, _, _ in fams[:4]]
     shutil.rmtree(d, ignore_errors=True)
     return common.finish(
@@ -299,6 +306,8 @@ def classify_known(name, data, errs, rc):
     """structural predicates of the recorded known findings (matched on the failing case, never on the property alone)"""
     if 'SyntaxWarning' in errs and rc == 0 and re.search(rb'\\[89]|\\[4-7][0-7][0-7]', data):
         return 'D14'
+    if 'UnicodeError' in errs and b'charset=idna' in data:
+        return 'D11'
     if 'RecursionError' in errs:
         m = re.search(rb'plural=([^;]+);', data)
         if m:
